@@ -1,4 +1,6 @@
 import LSModel.Handle
+import LSModel.Num
+import LSModel.Decode
 /-!
 # The pool of handles and the public operations (`src/lib.rs`)
 
@@ -59,6 +61,12 @@ inductive Op
   | collectChars (d hint : Nat) (items : List (Option Bytes))
   | collectStrs (d : Nat) (items : List (Option Bytes))
   | display (d : Nat) (pieces : List Piece)
+  | fromInt (d : Nat) (ty : IntTy) (v : Int)            -- `v.try_to_lean_string()` on an integer type
+  | fromBool (d : Nat) (b : Bool)                        -- `b.to_lean_string()`
+  | fromUtf8 (d : Nat) (b : Bytes)
+  | fromUtf8Lossy (d : Nat) (b : Bytes)
+  | fromUtf16 (d : Nat) (u : List Nat)                   -- code units as numbers `< 2^16`
+  | fromUtf16Lossy (d : Nat) (u : List Nat)
   deriving DecidableEq, Repr
 
 def World.get (w : World) (h : Nat) : Option Handle :=
@@ -121,6 +129,23 @@ def displayLoop (rf : Refuse) (st : List Bytes) : Heap → Handle → List Piece
     | .pidx hp1 r1 => .pidx hp1 r1
     | .pcb hp1 r1 => .pcb hp1 r1
     | .ub u => .ub u
+
+def boolText (b : Bool) : Bytes := if b then [0x74, 0x72, 0x75, 0x65] else [0x66, 0x61, 0x6c, 0x73, 0x65]
+
+/-- the items `from_utf16_lossy` collects: every unpaired surrogate becomes U+FFFD -/
+def lossy16 (u : List Nat) : List (Option Bytes) :=
+  (decodeUtf16 u).map fun o => match o with | some c => some c | none => some replacement
+
+/-- lower bound of `DecodeUtf16::size_hint` on a fresh decoder -/
+def utf16Hint (u : List Nat) : Nat := (u.length + 1) / 2
+
+/-- `from_utf16`: the loop stops at the first unpaired surrogate and drops the partial string -/
+def finishUtf16 (w : World) (d : Nat) (res : Res Unit) : World × Out :=
+  match res with
+  | .pcb hp r => match releaseRepr hp r with
+    | .ok hp' => (w.put hp' d none, .errUtf16)
+    | .error e => (w, .ub e)
+  | other => finishTemp w d other
 
 def step (rf : Refuse) (w : World) : Op → World × Out
   | .new d =>
@@ -236,6 +261,40 @@ def step (rf : Refuse) (w : World) : Op → World × Out
     | .pcb hp r => finishTemp w d (.pcb hp r)
     | .pidx hp r => finishTemp w d (.pidx hp r)
     | .ub u => (w, .ub u)
+  | .fromInt d ty v =>
+    if (w.get d).isSome then (w, .bad) else
+    match intToReprTy rf w.heap ty v with
+    | none => (w, .bad)
+    | some (some r, hp) => (w.put hp d (some r), .ok .unit)
+    | some (none, hp) => ({ w with heap := hp }, .err)
+  | .fromBool d b =>
+    if (w.get d).isSome then (w, .bad) else (w.put w.heap d (some (.inl (inlNew (boolText b)))), .ok .unit)
+  | .fromUtf8 d b =>
+    if (w.get d).isSome then (w, .bad) else
+    if validUtf8 b then
+      -- `Ok(LeanString::from(str))`
+      match fromStr rf w.heap b with
+      | (some r, hp) => (w.put hp d (some r), .ok .unit)
+      | (none, hp) => ({ w with heap := hp }, .panicAlloc)
+    else (w, .errUtf8)
+  | .fromUtf8Lossy d b =>
+    if (w.get d).isSome then (w, .bad) else
+    -- `with_capacity(buf.len())`, then `push_str(valid)` / `push(U+FFFD)` per chunk
+    match withCapacity rf w.heap b.length with
+    | (none, hp) => ({ w with heap := hp }, .panicAlloc)
+    | (some r0, hp0) => finishTemp w d (pushLoop rf w.statics hp0 r0 (lossyPushes b))
+  | .fromUtf16 d u =>
+    if (w.get d).isSome then (w, .bad) else
+    match withCapacity rf w.heap u.length with
+    | (none, hp) => ({ w with heap := hp }, .panicAlloc)
+    | (some r0, hp0) => finishUtf16 w d (pushLoop rf w.statics hp0 r0 (decodeUtf16 u))
+  | .fromUtf16Lossy d u =>
+    -- `decode_utf16(..).map(|c| c.unwrap_or(REPLACEMENT)).collect()`
+    if (w.get d).isSome then (w, .bad) else
+    let (r0, hp0) := match withCapacity rf w.heap (utf16Hint u) with
+      | (some r, hp) => (r, hp)
+      | (none, hp) => (Handle.inl inlEmpty, hp)
+    finishTemp w d (pushLoop rf w.statics hp0 r0 (lossy16 u))
 
 /-- a history -/
 def run (rf : Refuse) (w : World) : List Op → World
